@@ -15,6 +15,7 @@ mod d_dlint;
 mod d_embed;
 mod d_entry;
 mod d_fixb;
+mod d_fixrest;
 mod d_fixsmall;
 mod d_imp;
 mod d_limits;
@@ -143,6 +144,7 @@ fn main() {
     "vms" => d_vms::run(&args),
     "ws" => d_ws::run(&args),
     "fixsmall" => d_fixsmall::run(&args),
+    "fixrest" => d_fixrest::run(&args),
     "imp" => d_imp::run(&args),
     "cfexport" => d_cfexport::run(&args),
     "txt" => d_txt::run(&args),
